@@ -73,3 +73,19 @@ CONTRACTS.append(
         ],
     )
 )
+
+
+# "the type is a string that parses as a Python expression": the argparse parser takes the type of an option from
+# _handle_value(keyword.value).  Whatever it returns (it may refuse a node with NotImplementedError) is a str -- never a
+# typing object -- and for a plain Name other than the json `loads` callable it is that name.
+CONTRACTS.append(
+    Contract(
+        "cdd.argparse_function.utils.emit_utils:_handle_value",
+        params={"node": "opaque"},
+        paths={"node.id": "str"},
+        ensures=[
+            "is_str(result)",
+            "implies(node.id != 'loads', result == node.id) or not is_str(result)",
+        ],
+    )
+)
